@@ -165,6 +165,10 @@ func hsInput(x *Ctx, rng *vlib.Rng, valid, other []byte, regions []Region, keepP
 	switch {
 	case c.Gen == "valid":
 		return valid, "valid", true
+	case c.Gen == "raw":
+		// the exact bytes of the replay file (fuzz crashers)
+		in = RawInput(c)
+		return in, fmt.Sprintf("raw[%d]", len(in)), false
 	case c.Gen == "raw-random":
 		n := lens[((c.A%len(lens))+len(lens))%len(lens)]
 		return rng.Bytes(n), fmt.Sprintf("random[%d]", n), false
@@ -217,6 +221,15 @@ func hsInput(x *Ctx, rng *vlib.Rng, valid, other []byte, regions []Region, keepP
 	panic("unknown generator " + c.Gen)
 }
 
+// RawInput decodes the authoritative input of a Gen == "raw" case.
+func RawInput(c *Case) []byte {
+	h := c.Input
+	if i := strings.Index(h, "…"); i >= 0 {
+		h = h[:i]
+	}
+	return vlib.UnHex(h)
+}
+
 // feed queues the input as the case's chunker says and applies the cut.
 func (x *Ctx) feed(c *Conn, rng *vlib.Rng, in []byte) {
 	spec := x.ResolveChunk(rng, len(in))
@@ -228,7 +241,9 @@ func (x *Ctx) feed(c *Conn, rng *vlib.Rng, in []byte) {
 	c.ScriptConn.MaxRead = maxRead
 	c.FeedAll(in, sizes)
 	x.ApplyCut(c)
-	x.Case.Input = hexTrunc(in, 1<<15)
+	if x.Case.Gen != "raw" {
+		x.Case.Input = hexTrunc(in, 1<<15)
+	}
 	x.R.Count(x.Case.Prefix()+"/input-size", SizeClass(len(in)))
 }
 
